@@ -74,7 +74,7 @@ impl SwiftField for Field59F {
     where
         Self: Sized,
     {
-        let lines: Vec<&str> = input.lines().collect();
+        let lines = super::field_utils::content_lines(input, "Field 59F")?;
 
         if lines.is_empty() {
             return Err(ParseError::InvalidFormat {
@@ -174,7 +174,7 @@ impl SwiftField for Field59A {
     where
         Self: Sized,
     {
-        let lines: Vec<&str> = input.lines().collect();
+        let lines = super::field_utils::content_lines(input, "Field 59A")?;
 
         if lines.is_empty() {
             return Err(ParseError::InvalidFormat {
@@ -228,7 +228,7 @@ impl SwiftField for Field59NoOption {
     where
         Self: Sized,
     {
-        let lines: Vec<&str> = input.lines().collect();
+        let lines = super::field_utils::content_lines(input, "Field 59NoOption")?;
 
         if lines.is_empty() {
             return Err(ParseError::InvalidFormat {
@@ -288,7 +288,7 @@ impl SwiftField for Field59 {
 
         // Try Option F (structured name/address with line numbers)
         // This is identifiable by the line number format (1/content, 2/content, etc.)
-        let lines: Vec<&str> = input.lines().collect();
+        let lines = super::field_utils::content_lines(input, "Field 59")?;
         if !lines.is_empty() {
             // Check if any line (after optional account) has line number format
             let check_start = if lines[0].starts_with('/') { 1 } else { 0 };
